@@ -261,6 +261,8 @@ class LoopParser(SubParser):
         # increment = 360 / counter, or
         # increment = 65536 / counter, based on unit_mode register
         code_gen.add_instruction(OpCode.MOVE, LoopVar.FIRST, self._index_var)
+        code_gen.test_op(Operator.NOTEQ, LoopVar.COUNTER, 0)
+        outer_marker = code_gen.if_true_start()
         code_gen.test_op(Operator.EQ, Register.UNIT_MODE, UnitMode.RAW)
         marker = code_gen.if_true_start()
         code_gen.push(65536)
@@ -270,6 +272,7 @@ class LoopParser(SubParser):
         code_gen.push(LoopVar.COUNTER)
         code_gen.add_instruction(OpCode.OP, Operator.DIV)
         code_gen.add_instruction(OpCode.POP, LoopVar.INCR)
+        code_gen.if_end(outer_marker)
         return True
 
     def _loop_test(self, code_gen) -> bool:
